@@ -369,7 +369,11 @@ func checkOnce(t *T, prop func(*T)) (err *testError) {
 		t.tb.Helper()
 	}
 	defer func() {
-		err = panicToError(recover(), 3)
+		// Whatever the cleanup functions end with replaces the outcome of the property function itself,
+		// except that skipping from a cleanup function does not undo a failure of the property function.
+		if cerr := panicToError(recover(), 3); cerr != nil && !(cerr.isInvalidData() && err != nil && !err.isInvalidData()) {
+			err = cerr
+		}
 		// T is reused for the next test case, and a non-fatal failure can be followed by a skip
 		// or be signalled from a cleanup function: it still falsifies this (and only this) test case.
 		if msg, failed := t.takeFailed(); failed && (err == nil || err.isInvalidData()) {
@@ -378,6 +382,7 @@ func checkOnce(t *T, prop func(*T)) (err *testError) {
 	}()
 
 	defer t.cleanup()
+	defer func() { err = panicToError(recover(), 3) }()
 	prop(t)
 	t.failOnError()
 
